@@ -62,6 +62,7 @@ Section TrimFacts.
   Variable s : state.
   Hypothesis INV : Inv W sem s.
   Hypothesis OL : forall o, In o O -> o < N.
+  Set Default Proof Using "WF NB SO INV OL I".
 
   (* the pieces of [trim W sem I O s] *)
   Definition s0 : state := build_all W sem O s.
@@ -253,6 +254,7 @@ Section TrimFacts.
 
   (* the inputs are input cells of the trimmed workbook that survived *)
   Hypothesis II : forall a, In a I -> wb_input VV a = true /\ KK a = true.
+  Set Default Proof Using "WF NB SO INV OL I II".
 
   Lemma ii_lv a : In a I -> lv a = true.
   Proof.
